@@ -30,6 +30,8 @@ def run(chk, repo):
     chk.attempt(w1, chk, op)
     chk.attempt(w2, chk, op)
     chk.attempt(w3, chk, op)
+    from .common_rules import stateless_constructs
+    chk.attempt(stateless_constructs, chk, repo, "C05-F8")
     chk.attempt(w4, chk, op)
     chk.attempt(g3_threading, chk, op, "C10-G3")
     from .c07 import naming
